@@ -188,11 +188,12 @@ impl ConnectionManager {
 
         // Wait for all connection handlers to terminate
         while self.connection_handlers.join_next().await.is_some() {}
-        // At this point we shouldn't have any active peers
-        assert!(
-            self.active_peers.inner().connections.is_empty(),
-            "ActivePeers should be empty after all connection handlers have terminated"
-        );
+        // At this point we shouldn't have any active peers, unless a connection handler was
+        // cancelled before it could clean up after itself (the runtime is shutting down).
+        for peer_id in self.active_peers.peers() {
+            self.active_peers
+                .remove(&peer_id, crate::types::DisconnectReason::LocallyClosed);
+        }
 
         // wait for the endpoint to be idle
         self.endpoint
